@@ -605,6 +605,18 @@ fn apply(st: &mut State, line: &str, out: &mut String) {
                 ret = format!("bool {}", b);
             }
         }
+        "erm2" => {
+            // erm2 ws id c c2 v: Entry::remove::<C> then Entry::add(C2) through one Entry
+            let (i, g) = parse_target(t[2], &st.issued);
+            opline = format!("op erm2 {} {}:{} {}", t[1], i, g, t[3..].join(" "));
+            if let Some(w) = st.worlds[u(1)].as_mut() {
+                ret = match entry_remove_then_add(w, mk_id(i, g), u(3), u(4), v64(5)) {
+                    None => "bool false".into(),
+                    Some(false) => "bool true".into(),
+                    Some(true) => "bool true caught-panic".into(),
+                };
+            }
+        }
         "rsv" => {
             let (ws, desc, k) = (u(1), u(2) == 1, u(3));
             let cs: Vec<usize> = (0..k).map(|j| u(4 + j)).collect();
@@ -931,6 +943,8 @@ fn main() {
         // Dump-time callbacks (none expected) are discarded.
         ledger::take_events();
         so.write_all(out.as_bytes()).unwrap();
+        // flushed after every operation: if the process dies inside the library the trace says where
+        so.flush().unwrap();
     }
     so.flush().unwrap();
 }
